@@ -1,4 +1,5 @@
 import RimuProofs.Props.C20
+import RimuProofs.Lemmas.NIPTop
 
 /-!
 # C05  reset makes render a pure function of source and options
@@ -33,6 +34,71 @@ theorem spansRender_ignores_saved (rec : Rec) (env : Env) (src : Str) (s : Sessi
     (spansRender rec env src).run { s with saved := q } = (spansRender rec env src).run s := by
   unfold spansRender preReplacements
   simp only [bind_assoc, run_bind, run_modify]
+
+/-- The two runs end in the same exception, or return the same html and final sessions that differ at most in the two
+    scratch registers (so the same messages, definitions, options, pending attributes and id registry). -/
+def SameUpToScratch {α : Type} (r₁ r₂ : Except PyErr (α × Session)) : Prop :=
+  match r₁, r₂ with
+  | .ok (a, t1), .ok (a', t2) => a = a' ∧ ∃ q l, t2 = { t1 with saved := q, listIds := l }
+  | .error e, .error e' => e = e'
+  | _, _ => False
+
+theorem SameUpToScratch.of_agree {α : Type} {r₁ r₂ r₃ : Except PyErr (α × Session)}
+    (h1 : AgreeP true r₁ r₂) (h2 : AgreeP false r₂ r₃) : SameUpToScratch r₁ r₃ := by
+  cases r₁ with
+  | error e =>
+    cases r₂ with
+    | error e' =>
+      cases r₃ with
+      | error e'' => exact Eq.trans (α := PyErr) h1 h2
+      | ok _ => exact h2.elim
+    | ok _ => exact h1.elim
+  | ok x =>
+    obtain ⟨a, s1⟩ := x
+    cases r₂ with
+    | error e' => exact h1.elim
+    | ok y =>
+      obtain ⟨a', t1⟩ := y
+      cases r₃ with
+      | error e'' => exact h2.elim
+      | ok z =>
+        obtain ⟨a'', u1⟩ := z
+        obtain ⟨e1, q, l, e2⟩ := h1
+        obtain ⟨e3, q', l', e4⟩ := h2
+        subst e1 e3 e2 e4
+        exact ⟨rfl, q, l', rfl⟩
+
+/-- **The scratch registers never matter.**  Whatever an earlier call - completed or abandoned by an exception half
+    way through a list or a paragraph - left in `lists.ids` and `spans.savedReplacements`, a `render` call (with or
+    without reset) returns the same html, reports the same messages and leaves the same definitions, options and pending
+    attributes: a top-level list starts by emptying the stack of open ids, `spans.render` starts by emptying the
+    placeholder queue, and nothing else looks at either (`NIP`, pushed through every function of the model by
+    `nip_go`; `Lemmas/NIP*.lean`). -/
+theorem render_ignores_scratch_registers (env : Env) (fuel : Nat) (src : Str) (o : RenderOptions) (s : Session)
+    (q : List Fragment) (l : List Str) :
+    SameUpToScratch ((apiRender env fuel src o).run s) ((apiRender env fuel src o).run { s with saved := q, listIds := l }) := by
+  have h1 := apiRender_nip (b := true) env fuel src o s q []
+  have h2 := apiRender_nip (b := false) env fuel src o (pert true q [] s) [] l
+  exact SameUpToScratch.of_agree h1 h2
+
+/-- **C05, without a hypothesis on the scratch registers.**  With reset requested, the call returns the same html (or
+    the same exception) and the same messages from any two sessions whatever; the final sessions are equal up to the two
+    scratch registers. -/
+theorem reset_render_depends_on_nothing (env : Env) (fuel : Nat) (src : Str) (o : RenderOptions) (s₁ s₂ : Session)
+    (hreset : o.reset = .bool true ∨ o.reset = .str "true".toList) (hl : s₁.log = s₂.log) :
+    SameUpToScratch ((apiRender env fuel src o).run s₁) ((apiRender env fuel src o).run s₂) := by
+  have h := render_ignores_scratch_registers env fuel src o s₁ s₂.saved s₂.listIds
+  rw [reset_render_is_pure env fuel src o { s₁ with saved := s₂.saved, listIds := s₂.listIds } s₂ hreset hl rfl rfl] at h
+  exact h
+
+/-- Non-vacuity of the perturbation: a stale stack of open list ids and a stale placeholder queue, then a list whose
+    markers are on the stale stack. -/
+example :
+    (match (apiRender ⟨fun _ _ => .error⟩ 30 "- a\n* b `c`".toList {}).run Session.uninit,
+           (apiRender ⟨fun _ _ => .error⟩ 30 "- a\n* b `c`".toList {}).run
+             { Session.uninit with listIds := ["*".toList, "-".toList], saved := [{ text := "x".toList, done := true }] } with
+     | .ok (h1, _), .ok (h2, t2) => h1 == h2 && h1 == "<ul><li>a<ul><li>b <code>c</code></li></ul></li></ul>".toList && t2.listIds == []
+     | _, _ => false) = true := by decide +kernel
 
 /-- Non-vacuity: a session that customised every kind of definition, then the reset render of a source using them. -/
 example :
